@@ -30,7 +30,7 @@ def _data():
 # write_trn([("u", ["\u00a0a"])]) reads back as [("u", ["a"])].  Proposed repair: fixes/C11-trn-strip-only-format-blanks.diff;
 # directed case: replays/C11/trn_token_edge_unicode_blank.json.pending (rename to .json once the repair is merged).  Until then
 # the class stays out of the default generator; VERIF_C11_TRN_EDGE_BLANKS=1 switches it on (use with VERIF_REPO_SRC=<patched tree>).
-ENABLE_TRN_EDGE_UNICODE_BLANK = os.environ.get("VERIF_C11_TRN_EDGE_BLANKS") == "1"
+ENABLE_TRN_EDGE_UNICODE_BLANK = True  # repaired in /repo by 60e83eb
 
 _TRN_TOK = gen.weighted(*([(9, tx.words(tx.TRN_DELIMS)), (1, tx.words_with_inner_space(tx.TRN_DELIMS)),
                            (1, tx.words_with_inner(tx.UNI_SPACES, tx.TRN_DELIMS)), (1, tx.words_with_inner(tx.LINE_SEPS, tx.TRN_DELIMS))]
